@@ -283,12 +283,16 @@ func ruleFacetBuilderSiblings(r *Report, rule string) {
 		r.Ob(rule, b+".EndDoc/missing-iff-no-value-seen", ed.Decl.Pos(), okED, "EndDoc counts the document as missing exactly when no value was seen")
 		// UpdateVisitor sets sawValue = true
 		okUV := false
+		onlyTrue := true
 		for _, st := range storesToField(info, uv.Decl.Body, b, "sawValue") {
-			if exprStr(st.Rhs) == "true" {
+			if st.Rhs != nil && exprStr(st.Rhs) == "true" {
 				okUV = true
+			} else {
+				onlyTrue = false
 			}
 		}
 		r.Ob(rule, b+".UpdateVisitor/sets-sawValue", uv.Decl.Pos(), okUV, "UpdateVisitor records that the document has a value")
+		r.Ob(rule, b+".UpdateVisitor/never-clears-sawValue", uv.Decl.Pos(), onlyTrue, "within one document the flag only goes up: UpdateVisitor runs once per VALUE, so a store of anything but true lets a later value of a multi-valued field erase what an earlier value established, and the document is counted as missing although it was counted in a bucket")
 		// total and termsCount written only by UpdateVisitor
 		for _, fld := range []string{"total", "termsCount", "missing"} {
 			var writers []string
